@@ -6,7 +6,7 @@
 #include "pc_protos.h"
 #include "dw_model2.h"
 int verif_raised;
-int g_par[NN]; unsigned long g_off[NN]; unsigned g_n;
+int g_par[NN]; unsigned long g_off[NN]; unsigned g_n; _Bool g_claims_children[NN];   /* left nondeterministic */
 int nondet_int(void); unsigned nondet_uint(void); unsigned long nondet_ulong(void);
 
 #include "pc_trees.h"      /* written by prop.py: every unit tree shape with <= NN DIEs as a parent array (pre-order numbering) */
@@ -15,7 +15,7 @@ void hb_parent_table(void)
   /* shapes are enumerated concretely (control flow of the recursion depends on the shape only), offsets are arbitrary */
   for (int i = 0; i < NN; ++i)
     {
-      g_off[i] = nondet_ulong();
+      g_off[i] = nondet_ulong(); g_claims_children[i] = nondet_ulong() & 1;
       __CPROVER_assume(g_off[i] < 1000000);
       if (i == 0) __CPROVER_assume(g_off[0] == HS); else __CPROVER_assume(g_off[i] > g_off[i - 1] + HS);
     }
